@@ -118,6 +118,22 @@ def build_pool(tier, seed):
         p = gen_pattern(rng)
         if p not in pool:
             pool.append(p)
+    # the pool must be discriminating on the tree whatever the seed: keep drawing until the patterns give at
+    # least 25 distinct selections of the sources (only patterns that add a new selection are kept)
+    def selection(pattern):
+        rx = glob_regex(pattern)
+        return tuple(bool(rx.fullmatch(f)) for f in SOURCES)
+    seen = {selection(q) for q in pool}
+    guard = 0
+    while len(seen) < 30 and guard < 3000:
+        guard += 1
+        p = gen_pattern(rng)
+        if p in pool:
+            continue
+        sel = selection(p)
+        if sel not in seen:
+            seen.add(sel)
+            pool.append(p)
     return pool
 
 
